@@ -9,7 +9,6 @@ harness, repo, out = sys.argv[1], sys.argv[2], sys.argv[3]
 rep = {}
 # accessor files go into existing packages
 rep[os.path.join(repo, "zz_verif_access.go")] = os.path.join(harness, "access", "root.go")
-rep[os.path.join(repo, "internal", "field", "zz_verif_access.go")] = os.path.join(harness, "access", "field.go")
 # every other harness directory becomes a virtual package under <repo>/zz_verif/
 for d, _, files in os.walk(harness):
     rel = os.path.relpath(d, harness)
